@@ -53,6 +53,11 @@ func (propC08) Gen(seed uint64, tier string, idx int) *Plan2 {
 		p.Params["N"] = n
 		p.Params["ST"] = 1 + r.n(n)
 		p.Params["Dms"] = []int{1000, 60000}[r.n(2)]
+		// the unifier never talks to its breaker directly: half of the histories go the way
+		// LifecycleUnifier.UnifyModels does (Allow on the manager's breaker, results through the manager)
+		if r.n(2) == 0 {
+			p.Params["via"] = "manager"
+		}
 	}
 	j := idx / 3
 	mode := j % 4
@@ -165,6 +170,12 @@ func c08Build(p *Plan2) (breakerAPI, refParams) {
 			refParams{kind: "olla", T: 0, D: health.DefaultCircuitBreakerTimeout}
 	case "unifier":
 		cfg := unifier.CircuitBreakerConfig{Enabled: true, FailureThreshold: p.Int("T", 3), SuccessThreshold: p.Int("ST", 1), HalfOpenRequests: p.Int("N", 1), OpenDuration: time.Duration(p.Int("Dms", 1000)) * time.Millisecond}
+		if p.Str("via", "") == "manager" {
+			const u = "http://b1:8000"
+			m := unifier.NewEndpointManager(unifier.Config{CircuitBreaker: cfg, MaxConsecutiveFailures: 1 + p.Int("T", 3)}, quiet())
+			return breakerAPI{ask: func() bool { return m.GetCircuitBreaker(u).Allow() }, fail: func() { m.RecordFailure(u, fmt.Errorf("scripted failure")) }, succeed: func() { m.RecordSuccess(u) }, close: func() {}},
+				refParams{kind: "unifier", T: cfg.FailureThreshold, D: cfg.OpenDuration, N: cfg.HalfOpenRequests, ST: cfg.SuccessThreshold}
+		}
 		cb := unifier.NewCircuitBreaker(cfg)
 		return breakerAPI{ask: cb.Allow, fail: cb.RecordFailure, succeed: cb.RecordSuccess, close: func() {}},
 			refParams{kind: "unifier", T: cfg.FailureThreshold, D: cfg.OpenDuration, N: cfg.HalfOpenRequests, ST: cfg.SuccessThreshold}
